@@ -29,6 +29,8 @@ if go test -vet=off -count=1 ./... >/tmp/$name.test 2>&1; then res "suite-passes
 if [ -f "$dir/RUN.txt" ]; then
   # RUN.txt is free text: "Copy <file> to <dest path> and run ...: go test|run ..."
   dest=$(grep -oE ' to [^ ]+\.go' "$dir/RUN.txt" | head -1 | sed 's/^ to //'); cmd=$(grep -oE '(cd [^&;]+(&&|;) *)?([A-Z_]+=[^ ():;]+ +)*go (test|run) .*' "$dir/RUN.txt" | head -1 | sed -E 's/[[:space:]]+\([^()]*\)[[:space:]]*$//; s/^cd <[a-z ]+> *(&&|;) *//')
+  # "run (from cmd/livesim2/app, ...): go test ... ." - a command meant for a sub-directory
+  if ! echo "$cmd" | grep -q '^cd ' && from=$(grep -oE '\(from (cmd|pkg)/[A-Za-z0-9_/.-]+' "$dir/RUN.txt" | head -1 | sed 's/^(from //') && [ -n "$from" ] && [ -d "$from" ]; then cmd="cd $from && $cmd"; fi
   demo=$(ls "$dir" | grep -E '_test\.go$|main\.go$' | head -1); [ -f "$dir/demo_test.go" ] && demo=demo_test.go
   if [ -n "$dest" ] && [ -n "$demo" ]; then
     mkdir -p "$(dirname "$dest")"; cp "$dir/$demo" "$dest"
